@@ -314,7 +314,9 @@ func (es *SearchEngineState) MATCHWHOLELINE(not bool) {
 }
 
 func (es *SearchEngineState) MATCHWHOLEWORD(not bool) {
-	if (es.currentFileOffset != 0 && (!IsLetter(es.READ(1)) || IsLetter(es.READAT(es.currentFileOffset-1, 1)))) || es.currentFileOffset == es.reader.Size() {
+	// a word starts here only if the next character is a word character (there is none at the end
+	// of the input) and the previous one, if any, is not
+	if !IsLetter(es.READ(1)) || (es.currentFileOffset != 0 && IsLetter(es.READAT(es.currentFileOffset-1, 1))) {
 		if not {
 			es.NEXT()
 		} else {
